@@ -28,6 +28,32 @@ def run(path):
     vlib.build_java()
     d = vlib.workdir("replay-run")
     ev = case["event"]
+    fresh = None
+    if case.get("harness_args") and eng != "hang":
+        # re-execute the recording on the CURRENT tree and pick the event with the same key
+        vlib.build_harness()
+        args = list(case["harness_args"])
+        out = os.path.join(d, "rerun.ndjson")
+        old_out = [a for a in args if a.endswith(".ndjson")][-1]
+        args = [out if a == old_out else a for a in args]
+        try:
+            vlib.run_harness(args)
+            for e in vlib.read_ndjson(out):
+                if e.get("key") == ev.get("key"):
+                    fresh = e
+                    break
+        except Exception as ex:        # missing case file, hang ...: fall back to the recorded event
+            print("re-execution not possible (%s); re-judging the recorded event" % ex)
+    if fresh is not None:
+        print("re-executed %s on the current tree" % ev.get("key"))
+        # histories / programs were cut at the rejected step when recorded; cut the fresh one alike
+        for fld in ("ev", "steps"):
+            if fld in ev and fld in fresh and isinstance(ev[fld], list):
+                fresh[fld] = fresh[fld][:len(ev[fld])]
+        if "q" in ev and "q" in fresh and len(ev["q"]) == 1:
+            want = {k: ev["q"][0].get(k) for k in ("f", "d", "m", "s", "n", "a", "b", "mo", "roll", "y")}
+            fresh["q"] = [q for q in fresh["q"] if all(q.get(k) == v for k, v in want.items() if v is not None)][:1] or fresh["q"]
+        ev = fresh
     if case.get("recipe") is not None:
         vlib.build_harness()
         inp = os.path.join(d, "in.json")
